@@ -296,6 +296,24 @@ func runC07(c *Ctx) {
 				if good {
 					cyc = true
 					c.Touch(v, sc)
+					// the search is started from every process: the call is guarded by nothing but the visited test
+					okCover := true
+					for _, gg := range GuardsOf(call) {
+						vv, _ := gg.BoolVal()
+						if lk, isLk := stripConv(vv).(*ssa.Lookup); isLk {
+							if _, isMap := lk.X.Type().Underlying().(*types.Map); isMap && len(PathOf(lk.X).Fields) == 0 {
+								continue // visited[name]
+							}
+						}
+						// the loop condition itself (range over Processes) is not a guard edge of interest
+						if ex, isEx := vv.(*ssa.Extract); isEx {
+							if _, isNext := ex.Tuple.(*ssa.Next); isNext {
+								continue
+							}
+						}
+						okCover = false
+					}
+					c.Check(okCover, r2, "cycle-search-covers-all", p.InstrPos(call), "the cycle search starts from every process not yet visited", "the cycle search is not started from every process (an extra condition skips some, e.g. disabled ones): a cycle among the skipped processes is accepted although they can be started later")
 					// the helper follows depends_on edges
 					usesDeps := p.Deep(Site{Name: "range DependsOn", Instr: func(x ssa.Instruction) bool {
 						rg, isR := x.(*ssa.Range)
@@ -461,9 +479,23 @@ func runC07(c *Ctx) {
 						}
 					}
 				} else {
-					// a found flag computed by comparing the name with the requested names
+					// a found flag computed by comparing the process NAME (not the map key,
+					// which is the replica name) with the requested names
 					if !val {
-						okEdge = true
+						byName := false
+						AllInstrs(f, func(x ssa.Instruction) {
+							switch y := x.(type) {
+							case *ssa.BinOp:
+								if PathOf(y.X).LastField() == s.FName || PathOf(y.Y).LastField() == s.FName {
+									byName = true
+								}
+							case *ssa.Lookup:
+								if PathOf(y.Index).LastField() == s.FName {
+									byName = true
+								}
+							}
+						})
+						okEdge = byName
 					}
 				}
 			}
